@@ -57,6 +57,52 @@ def contend_funcs(chk, cmio, pagingtracer):
     chk.compare('contend_*/io_contention_* vs Model/Contend.lean', ops, impl, model)
 
 
+def config_tie(chk, cmio, pagingtracer, simutils):
+    """`CMIOSimulator.__init__` / `simutils.from_memory` constants vs Contend.cfgFor."""
+    ops, impl = [], []
+    for is128, memory in ((0, [0] * 65536), (1, pagingtracer.Memory())):
+        sim = simutils.from_memory(cmio.CMIOSimulator, memory)
+        ops.append(f'cfg {is128}')
+        impl.append(f'{sim.frame_duration} {sim.int_active} {sim.t0} {sim.t1}')
+        chk.case('cfg', ('cfg', is128), {'machine': '128K' if is128 else '48K', 'frame t0 t1': impl[-1]})
+    model = chk.run_driver('Contend', ops)
+    chk.compare('CMIOSimulator config constants vs Contend.cfgFor', ops, impl, model)
+
+
+def nop_oracle(chk, classes, pagingtracer, simutils):
+    """The property on the real contended simulators for the one instruction whose bus activity is beyond
+    doubt (NOP: a single 4 T-state opcode fetch at PC): T' - T = 4 + wait(T) when PC is contended, 4 otherwise,
+    on both frame layouts, at every frame position near the window edges and a stride elsewhere."""
+    cls = dict(classes)
+    for machine, frame, first, line in (('48K', 69888, 14335, 224), ('128K', 70908, 14361, 228)):
+        def wait(t):
+            k = t - first
+            return (6, 5, 4, 3, 2, 1, 0, 0)[(k % line) % 8] if 0 <= k < 192 * line and k % line < 128 else 0
+        last = first + 191 * line + 128
+        ts = sorted(set(list(range(first - 40, first + 300)) + list(range(last - 1200, last + 60)) + list(range(0, frame, chk.scale(97, 7)))
+                        + [frame - 1, frame, frame + first, frame + last - 2]))
+        for name in ('py-cmio', 'c-cmio'):
+            for pc, o7, contended in ((0x6000, 0, True), (0x8000, 0, False), (0xC000, 1, machine == '128K'), (0xC000, 2, False)):
+                if machine == '48K':
+                    memory = [0] * 65536
+                    if o7 == 2:
+                        continue
+                else:
+                    memory = pagingtracer.Memory(out7ffd=o7)
+                sim = simutils.from_memory(cls[name], memory)
+                for t in ts:
+                    sim.registers[24] = pc
+                    sim.registers[25] = t
+                    sim.run(pc)
+                    got = sim.registers[25] - t
+                    want = 4 + (wait(t % frame) if contended else 0)
+                    chk.case(f'nop:{name}:{machine}', (name, machine, pc, o7, t))
+                    if got != want:
+                        chk.violation(f'nop-delay:{name}:{machine}', f'{name} {machine} NOP at {pc:#x} (7ffd={o7}) at T={t}: took {got} T-states, ULA pattern says {want}',
+                                      {'kind': 'nop', 'impl': name, 'machine': machine, 'pc': pc, 'o7ffd': o7, 't': t})
+                        break
+
+
 def uncontended_state(rng, tbl, op):
     """A state in which no address the instruction can put on the bus is contended (48K)."""
     regs, fields, mem, ins, tracers = simcorr.rand_state(rng, tbl, op, t_bias=t_bias)
@@ -141,7 +187,7 @@ def run(chk):
                         '(per-slot differential at all phases) and bounded by theorem (never fewer T-states; none outside the window; none when uncontended) '
                         'but not proved against documentation',
                         'BIT n,(HL), HALT and LD A,I/R are excluded from only_adds_delay_partial (see Props/C19.lean) and covered by the e2e oracle']
-    cmio, pagingtracer = fresh_import('skoolkit.cmiosimulator', 'skoolkit.pagingtracer')
+    cmio, pagingtracer, simutils = fresh_import('skoolkit.cmiosimulator', 'skoolkit.pagingtracer', 'skoolkit.simutils')
     gen_ok = simgen.regen(chk)
     ok = chk.lake_build([PROPS, 'SkoolVerif.Prelude.SimProto', 'SkoolVerif.Gen.CmioHandlers', 'SkoolVerif.Model.Contend']) if gen_ok else False
     chk.audit(PROPS)
@@ -149,7 +195,9 @@ def run(chk):
         chk.leanchecker([PROPS])
     delay_tables(chk, cmio)
     contend_funcs(chk, cmio, pagingtracer)
+    config_tie(chk, cmio, pagingtracer, simutils)
     impls, classes = build_impls(chk)
+    nop_oracle(chk, classes, pagingtracer, simutils)
     if gen_ok and ok:
         single_step(chk, [i for i in impls if 'cmio' in i[0]])
     cmio_vs_plain(chk, impls)
@@ -158,6 +206,13 @@ def run(chk):
 
 def replay(chk, data):
     cmio, pagingtracer = fresh_import('skoolkit.cmiosimulator', 'skoolkit.pagingtracer')
+    if data['kind'] == 'nop':
+        (simutils,) = fresh_import('skoolkit.simutils')
+        cmio, pagingtracer = fresh_import('skoolkit.cmiosimulator', 'skoolkit.pagingtracer')
+        impls, classes = build_impls(chk)
+        n0 = len(chk.violations)
+        nop_oracle(chk, classes, pagingtracer, simutils)
+        return len(chk.violations) > n0
     if data['kind'] == 'table':
         n0 = len(chk.violations)
         delay_tables(chk, cmio)
